@@ -13,6 +13,8 @@ harness runs the real parser on the excluded instances (evidence key `exemptions
 import PromVerif.Spec.OMRules
 import PromVerif.Lemmas.OMChecks
 import PromVerif.Lemmas.OMDoom
+import PromVerif.Lemmas.OMGroup
+import PromVerif.Lemmas.OMLabels
 import PromVerif.Lemmas.OMToy
 
 namespace PromVerif.Props.C15
@@ -542,5 +544,185 @@ theorem clashing_families (P : Params) (ls : List Line) (h : ClashingFamilies ls
 example : isError (parseDoc "# TYPE a counter\na_total 1\n# TYPE b gauge\nb 1\n# EOF\n") = false := by decide
 example : errOf (parseDoc "# TYPE a counter\na_total 1\n# TYPE a_total gauge\na_total 1\n# EOF\n") = some .valueError := by decide
 example : errOf (parseDoc "# TYPE a_count gauge\n# TYPE b gauge\n# TYPE a summary\n# EOF\n") = some .valueError := by decide
+
+/-- a metadata line of a family after one of its samples (or after any sample line since the family's earlier
+metadata line) is rejected -/
+theorem late_metadata (P : Params) (ls : List Line) (h : LateMetadata ls) : isError (assemble P ls) = true := by
+  obtain ⟨pre, k1, n, r1, mid, k2, r2, post, rfl, _, nh, plain, hmem⟩ := h
+  obtain ⟨m1, m2, rfl⟩ := List.append_of_mem hmem
+  apply isError_of_suffix_kept
+  intro st hk
+  rw [finishRun_cons]
+  cases hs : stepLine P st (.metadata k1 n r1) with
+  | error e => rfl
+  | ok st1 =>
+    simp only
+    obtain ⟨hn, _, _, _⟩ := stepLine_meta_name P st st1 k1 n r1 hs
+    have hk1 := kept_step P st st1 _ hk hs
+    rw [List.append_assoc, finishRun_append]
+    cases hr : run P st1 m1 with
+    | error e => rfl
+    | ok st2 =>
+      simp only
+      have hseen2 := seen_run P (fun _ => True) n n (fun _ _ _ _ _ _ => trivial) (rec_name P _ n) m1 st1 st2 (Or.inl ⟨hn, trivial⟩) hr
+      have hk2 := kept_run P m1 st1 st2 hk1 hr
+      rw [List.cons_append, finishRun_cons]
+      cases hs3 : stepLine P st2 (.sample nh plain) with
+      | error e => rfl
+      | ok st3 =>
+        simp only
+        have h3 := hasSample_of_sample P n st2 st3 nh plain hk2 hseen2 hs3
+        rw [finishRun_append]
+        cases hr4 : run P st3 m2 with
+        | error e => rfl
+        | ok st4 =>
+          simp only
+          have h4 := hasSample_run P n m2 st3 st4 h3 hr4
+          rcases h4.2 with ⟨hn4, hne⟩ | hrec
+          · rw [finishRun_cons]
+            cases hs5 : stepLine P st4 (.metadata k2 n r2) with
+            | error e => rfl
+            | ok st5 =>
+              exfalso
+              obtain ⟨_, hc⟩ := stepLine_ok P st4 st5 _ hs5
+              rcases hc with ⟨h0, _⟩ | ⟨kind, cand, rest, hl, hm⟩ | ⟨_, _, _, _, hl, _⟩
+              · cases h0
+              · cases hl
+                rw [stepMeta_late P st4 _ _ _ hn4 hne] at hm; cases hm
+              · cases hl
+          · exact meta_after_seen P n k2 r2 post st4 hrec
+
+example : isError (parseDoc "# TYPE a gauge\n# HELP a h\na 1\n# EOF\n") = false := by decide
+example : errOf (parseDoc "# TYPE a gauge\na 1\n# HELP a h\n# EOF\n") = some .valueError := by decide
+example : errOf (parseDoc "# TYPE a gauge\na 1\na 2\nb 1\n# UNIT a x\n# EOF\n") = some .valueError := by decide
+
+/-! ## timestamps within a group -/
+
+theorem exempt_false (t : Str) (h : t ≠ cs!"info") : tsOrderExempt.contains t = false := by
+  have : tsOrderExempt = [cs!"info"] := by decide
+  rw [this]; simpa using h
+
+/-- the shared part of the two timestamp rules: two consecutive samples of one group of family `n`; if the
+timestamp test on the pair fails, the second line fails -/
+theorem ts_pair_fails (P : Params) (n t : Str) (s1 s2 : OSample) (hti : t ≠ cs!"info")
+    (hm1 : s1.name ∈ familyNames n t) (hm2 : s2.name ∈ familyNames n t) (hsame : SameGroup n t s1 s2)
+    (hts : isError (chkGroupTs P t s1.ts s2.ts) = true)
+    (st st' : St) (hh : HdrIs n t st.hdr) (heof : st.eof = false) (hs1 : stepLine P st (smp s1) = .ok st') :
+    isError (stepLine P st' (smp s2)) = true := by
+  have ha1 : st.hdr.allowed.contains s1.name = true := by rw [hh.2.2, ← familyNames_eq]; exact contains_of_mem hm1
+  have ha2 : st.hdr.allowed.contains s2.name = true := by rw [hh.2.2, ← familyNames_eq]; exact contains_of_mem hm2
+  have htyp : st.hdr.typ.getD [] = t := by rw [hh.2.1]; rfl
+  rw [stepLine_smp P st s1 heof, stepSample_allowed P st s1 false ha1] at hs1
+  cases hc1 : sampleChecks P st.hdr st.grp s1 false with
+  | error e => rw [hc1] at hs1; cases hs1
+  | ok gr1 =>
+    rw [hc1] at hs1
+    obtain rfl := Except.ok.inj hs1
+    have hg1 := sampleChecks_ok P st.hdr st.grp gr1 s1 n hh.1 hc1
+    rw [htyp] at hg1
+    obtain ⟨g1, ls1, hgo1, _, hgrp, hgts, _⟩ := groupStep_ok P st.grp gr1 n t s1 hg1
+    rw [stepLine_smp P { st with grp := gr1 } s2 heof, stepSample_allowed P { st with grp := gr1 } s2 false ha2]
+    have hfail : isError (sampleChecks P st.hdr gr1 s2 false) = true := by
+      apply sampleChecks_group_fails P st.hdr gr1 s2 n hh.1
+      rw [htyp]
+      cases hgo2 : groupOf s2 n t with
+      | error e => unfold groupStep; rw [hgo2]; rfl
+      | ok g2 =>
+        have e1 := groupOf_spec s1 n t g1 hti hgo1
+        have e2 := groupOf_spec s2 n t g2 hti hgo2
+        have : g2 = g1 := by rw [e1, e2]; exact hsame.symm
+        subst this
+        exact groupStep_ts_fails P gr1 n t s2 g2 hgo2 hgrp (by rw [hgts]; exact hts)
+    dsimp only
+    cases hc2 : sampleChecks P st.hdr gr1 s2 false with
+    | error e => rfl
+    | ok gr2 => rw [hc2] at hfail; cases hfail
+
+/-- timestamps going backwards between consecutive samples of one group are rejected (info families exempt) -/
+theorem timestamp_backwards (P : Params) (ls : List Line) (h : TimestampBackwards P ls) : isError (assemble P ls) = true := by
+  obtain ⟨n, t, s1, s2, hb, hti, hm1, hm2, hsame, hts⟩ := h
+  refine block_of_InBlock2 P ls n t (smp s1) (smp s2) hb ?_
+  intro st st' hh heof hs1
+  refine ts_pair_fails P n t s1 s2 hti hm1 hm2 hsame ?_ st st' hh heof hs1
+  rcases hts with ⟨a1, b1, a2, b2, e1, e2, hlt⟩ | ⟨f1, f2, e1, e2, hlt⟩
+  · rw [e1, e2]
+    have hgt : (if a1 = a2 then decide (b1 > b2) else decide (a1 > a2)) = true := by
+      rcases hlt with h | ⟨h1, h2⟩
+      · have hne : a1 ≠ a2 := by intro e; subst e; exact absurd h (Int.lt_irrefl _)
+        rw [if_neg hne]; exact decide_eq_true h
+      · have he : a1 = a2 := h1.symm
+        rw [if_pos he]; exact decide_eq_true h2
+    simp only [chkGroupTs, Option.isNone, bne_self_eq_false, Bool.false_eq_true, if_false, tsGt, hgt, exempt_false t hti,
+      Bool.not_false, Bool.and_self]
+    rfl
+  · rw [e1, e2]
+    simp only [chkGroupTs, Option.isNone, bne_self_eq_false, Bool.false_eq_true, if_false, tsGt, hlt, exempt_false t hti,
+      Bool.not_false, Bool.and_self]
+    rfl
+
+example : isError (parseDoc "# TYPE a gauge\na{x=\"1\"} 1 5\na{x=\"1\"} 2 6\n# EOF\n") = false := by decide
+example : errOf (parseDoc "# TYPE a gauge\na{x=\"1\"} 1 5\na{x=\"1\"} 2 4\n# EOF\n") = some .valueError := by decide
+example : errOf (parseDoc "# TYPE a counter\na_total{x=\"1\"} 1 5\na_total{x=\"2\"} 1 1\na_total{x=\"2\"} 1 0\n# EOF\n") = some .valueError := by decide
+
+/-- a timestamp on only one of two consecutive samples of one group is rejected -/
+theorem timestamp_partial (P : Params) (ls : List Line) (h : TimestampPartial ls) : isError (assemble P ls) = true := by
+  obtain ⟨n, t, s1, s2, hb, hti, hm1, hm2, hsame, hts⟩ := h
+  refine block_of_InBlock2 P ls n t (smp s1) (smp s2) hb ?_
+  intro st st' hh heof hs1
+  refine ts_pair_fails P n t s1 s2 hti hm1 hm2 hsame ?_ st st' hh heof hs1
+  have : (s2.ts.isNone != s1.ts.isNone) = true := by
+    cases h1 : s1.ts <;> cases h2 : s2.ts <;> simp_all
+  simp only [chkGroupTs, this, if_true]
+  rfl
+
+example : errOf (parseDoc "# TYPE a gauge\na{x=\"1\"} 1 5\na{x=\"1\"} 2\n# EOF\n") = some .valueError := by decide
+example : errOf (parseDoc "# TYPE a gauge\na{x=\"1\"} 1\na{x=\"1\"} 2 7\n# EOF\n") = some .valueError := by decide
+
+/-! ## rules enforced while a line is tokenised -/
+
+/-- exemplars whose label names and values total more than 128 characters are rejected: whatever the state machine
+of `_parse_remaining_text` collected, the line fails once the parsed exemplar labels exceed the limit -/
+theorem exemplar_too_long (P : Params) (val : Num) (a : RAcc) (ls : Labels) (hl : a.exLabels = some ls)
+    (hlen : 128 < (ls.map (fun kv => kv.1.length + kv.2.length)).sum) : isError (remFinish P val a) = true := by
+  unfold remFinish
+  cases runChecks _ with
+  | error e => rfl
+  | ok u =>
+    dsimp only
+    cases parseTimestamp P a.timestamp.reverse with
+    | error e => rfl
+    | ok ts =>
+      dsimp only
+      rw [hl]
+      dsimp only
+      have : remExemplar P a ls = .error .valueError := by
+        unfold remExemplar
+        dsimp only
+        have hc : natCmp exemplarLenCmp (ls.map (fun kv => kv.1.length + kv.2.length)).sum exemplarMaxLen = true := by
+          show decide ((ls.map (fun kv => kv.1.length + kv.2.length)).sum > 128) = true
+          exact decide_eq_true hlen
+        rw [if_pos hc]
+      rw [this]; rfl
+
+set_option maxRecDepth 8000 in
+example : isError (parseDoc "# TYPE a counter\na_total 1 # {t=\"0123456789012345678901234567890123456789012345678901234567890123456789012345678901234567890123456789012345678901234567890123456\"} 1\n# EOF\n") = false := by decide
+set_option maxRecDepth 8000 in
+example : errOf (parseDoc "# TYPE a counter\na_total 1 # {t=\"01234567890123456789012345678901234567890123456789012345678901234567890123456789012345678901234567890123456789012345678901234567\"} 1\n# EOF\n") = some .valueError := by decide
+
+/-- duplicate label names are rejected: `parse_labels` (metric labels and exemplar labels alike) accepts a term
+only if its name is not yet present … -/
+theorem duplicate_label_term (legacy om : Bool) (sub : Str) (labels labels' : List (Str × Str)) (rest : Str)
+    (h : parseOneLabel legacy om sub labels = .ok (labels', rest)) :
+    labels' = labels ∨ ∃ k v, labels' = labels ++ [(k, v)] ∧ labels.any (fun kv => kv.1 == k) = false :=
+  parseOneLabel_fresh legacy om sub labels labels' rest h
+
+/-- … so a parsed label set never holds a name twice -/
+theorem duplicate_label (legacy om : Bool) (s : Str) (ls : List (Str × Str)) (h : parseLabels legacy s om = .ok ls) :
+    (ls.map (·.1)).Nodup :=
+  parseLabels_nodup legacy om s ls h
+
+example : isError (parseDoc "a{x=\"1\",y=\"2\"} 1\n# EOF\n") = false := by decide
+example : errOf (parseDoc "a{x=\"1\",x=\"2\"} 1\n# EOF\n") = some .valueError := by decide
+example : errOf (parseDoc "# TYPE a counter\na_total 1 # {x=\"1\",x=\"1\"} 1\n# EOF\n") = some .valueError := by decide
 
 end PromVerif.Props.C15
